@@ -241,6 +241,57 @@ func runCopy(mode string, seed int64, tier string, sc *Script) map[string]any {
 		}
 	}
 
+	// removeForeignLayers against the Lean compaction loop: every list over {foreign, ordinary}
+	// up to length 6, and longer random ones
+	if mode == "C01" {
+		sc.Case("remove-foreign-layers")
+		sc.NonTrivial()
+		foreignMT := []string{ocispec.MediaTypeImageLayerNonDistributable, ocispec.MediaTypeImageLayerNonDistributableGzip, ocispec.MediaTypeImageLayerNonDistributableZstd, docker.MediaTypeForeignLayer}
+		emit := func(flags []bool) {
+			var ds []ocispec.Descriptor
+			var items []string
+			for k, f := range flags {
+				d := descOf(ocispec.MediaTypeImageLayer, []byte(fmt.Sprintf("rfl-%d", k)))
+				c := "L"
+				if f {
+					d.MediaType = foreignMT[k%len(foreignMT)]
+					c = "f"
+				}
+				d.Annotations = map[string]string{"id": fmt.Sprint(k + 1)}
+				ds = append(ds, d)
+				items = append(items, fmt.Sprintf("%d%s", k+1, c))
+			}
+			var kept []string
+			for _, d := range oras.VerifRemoveForeignLayers(ds) {
+				kept = append(kept, d.Annotations["id"])
+			}
+			l, a := "-", "-"
+			if len(items) > 0 {
+				l = strings.Join(items, ",")
+			}
+			if len(kept) > 0 {
+				a = strings.Join(kept, ",")
+			}
+			sc.Op(a, "cm foreign l=%s", l)
+			runs++
+		}
+		for n := 0; n <= 6; n++ {
+			for bits := 0; bits < 1<<n; bits++ {
+				flags := make([]bool, n)
+				for k := range flags {
+					flags[k] = bits>>k&1 == 1
+				}
+				emit(flags)
+			}
+		}
+		for k := 0; k < 60; k++ {
+			flags := make([]bool, 7+rng.Intn(20))
+			for i := range flags {
+				flags[i] = rng.Intn(3) == 0
+			}
+			emit(flags)
+		}
+	}
 	caseNo := 0
 	// corpus first: the F10 witness
 	if mode == "C01" {
